@@ -693,6 +693,23 @@ def aliases(run):
                                                           291 * 16 + 7):
             run.violation('alias/blockId', 'blockId/blockMeta accessors '
                           'inconsistent', {'class': K.__name__})
+        # each accessor changes only its own part of an existing value
+        for start in (0xABC, 0xFFFF, 0x10, 0x0F):
+            o = K()
+            o.block_state_id = start
+            o.blockId = 5
+            a_ = o.block_state_id
+            o.blockMeta = 3
+            b_ = o.block_state_id
+            o.blockMeta = 0x1F          # only four bits belong to the meta
+            c_ = o.block_state_id
+            run.count('alias.roundtrips')
+            if (a_, b_, c_) != (5 << 4 | start & 0xF, 5 << 4 | 3,
+                                5 << 4 | 0xF):
+                run.violation('alias/blockId', 'blockId/blockMeta setters '
+                              'disturb the other part of block_state_id',
+                              {'class': K.__name__, 'start': start,
+                               'got': (a_, b_, c_)})
     # transforms
     p = cb.EntityPositionDeltaPacket()
     for val in (0, 5, -5, 4096, -32768, 32767):
@@ -717,6 +734,20 @@ def aliases(run):
                 j.is_hardcore = hc
                 run.count('alias.roundtrips')
                 run.case(('alias', 'JoinGame', pv, gm, hc))
+                # ... and in the other order, after a toggle
+                j2 = cb.JoinGamePacket(
+                    context=ConnectionContext(protocol_version=pv))
+                j2.is_hardcore = not hc
+                j2.is_hardcore = hc
+                j2.pure_game_mode = gm
+                j3 = cb.JoinGamePacket(
+                    context=ConnectionContext(protocol_version=pv))
+                j3.is_hardcore = hc
+                if (j2.pure_game_mode, bool(j2.is_hardcore)) != (gm, hc) or \
+                        bool(j3.is_hardcore) != hc:
+                    run.violation('alias/joingame', 'game mode / hardcore '
+                                  'aliases depend on the order they are set '
+                                  'in', {'pv': pv, 'gm': gm, 'hc': hc})
                 if j.pure_game_mode != gm or bool(j.is_hardcore) != hc:
                     run.violation('alias/joingame', 'game mode / hardcore '
                                   'aliases do not read back', {
